@@ -44,16 +44,22 @@ def running_min(ys, ks):
 
 
 @core.safe_case
-def one(ctx, pts, ks, t, family):
+def one(ctx, pts, ks, t, family, int_dtype=None):
     import kneeliverse.postprocessing as pp
     n = len(pts)
     ks = [int(k) for k in ks]
-    case = dict(points=pts.tolist(), knees=ks, t=t)
+    if int_dtype is None:
+        int_dtype = bool(gen.int_ok(pts) and ctx.rng.random() < 0.35)
+    # an integral curve is also delivered as an int64 array (raw counts) to the REAL filters; oracles / references keep the float64 copy
+    pin = pts.astype(np.int64) if int_dtype else pts
+    if int_dtype:
+        ctx.tag('input:int64-dtype')
+    case = dict(points=pts.tolist(), knees=ks, t=t, int_dtype=bool(int_dtype))
     d = ctx.get_driver()
     ys = pts[:, 1]
     # ---- worst filter
     try:
-        w = [int(v) for v in np.asarray(pp.filter_worst_knees(pts, np.array(ks, dtype=int))).tolist()]
+        w = [int(v) for v in np.asarray(pp.filter_worst_knees(pin, np.array(ks, dtype=int))).tolist()]
     except Exception as e:
         ctx.fail('predicate', 'worst-completes', 'postprocessing.filter_worst_knees', case, repr(e)[:200])
         w = None
@@ -62,7 +68,7 @@ def one(ctx, pts, ks, t, family):
         if w != want:
             ctx.fail('predicate', 'worst-is-running-minimum', 'postprocessing.filter_worst_knees', case, dict(impl=w, expected=want))
         else:
-            w2 = [int(v) for v in np.asarray(pp.filter_worst_knees(pts, np.array(w, dtype=int))).tolist()]
+            w2 = [int(v) for v in np.asarray(pp.filter_worst_knees(pin, np.array(w, dtype=int))).tolist()]
             if w2 != w:
                 ctx.fail('predicate', 'worst-idempotent', 'postprocessing.filter_worst_knees', case, dict(once=w, twice=w2))
         m = core.parse_nats(d.call('worst', [core.rats(ys), core.nats(ks)])[0])
@@ -72,8 +78,8 @@ def one(ctx, pts, ks, t, family):
     # ---- corner filter / selector
     ious = {k: (iou_of(pts, k) if 1 <= k and k + 1 < n else 0.0) for k in ks}
     try:
-        f = [int(v) for v in np.asarray(pp.filter_corner_knees(pts, np.array(ks, dtype=int), t=t)).tolist()]
-        s = [int(v) for v in np.asarray(pp.select_corner_knees(pts, np.array(ks, dtype=int), t=t)).tolist()]
+        f = [int(v) for v in np.asarray(pp.filter_corner_knees(pin, np.array(ks, dtype=int), t=t)).tolist()]
+        s = [int(v) for v in np.asarray(pp.select_corner_knees(pin, np.array(ks, dtype=int), t=t)).tolist()]
     except Exception as e:
         ctx.fail('predicate', 'corner-completes', 'postprocessing.filter_corner_knees/select_corner_knees', case, repr(e)[:200])
         f = s = None
@@ -101,8 +107,8 @@ def one(ctx, pts, ks, t, family):
         if sorted(f + s) != sorted(ks) or set(f) & set(s):
             ctx.fail('predicate', 'corner-partition', 'postprocessing.filter_corner_knees+select_corner_knees', case, detail)
         if f == want_f and s == want_s:
-            f2 = [int(v) for v in np.asarray(pp.filter_corner_knees(pts, np.array(f, dtype=int), t=t)).tolist()] if f else []
-            s2 = [int(v) for v in np.asarray(pp.select_corner_knees(pts, np.array(s, dtype=int), t=t)).tolist()] if s else []
+            f2 = [int(v) for v in np.asarray(pp.filter_corner_knees(pin, np.array(f, dtype=int), t=t)).tolist()] if f else []
+            s2 = [int(v) for v in np.asarray(pp.select_corner_knees(pin, np.array(s, dtype=int), t=t)).tolist()] if s else []
             if f2 != f or s2 != s:
                 ctx.fail('predicate', 'corner-idempotent', 'postprocessing.filter_corner_knees/select_corner_knees', case, dict(f=f, f2=f2, s=s, s2=s2))
         args = [str(n), core.rat(t), core.nats(ks), core.rats([ious[k] for k in ks])]
@@ -134,7 +140,10 @@ def curve(rng, n):
         for _ in range(n - 1):
             x.append(x[-1] + rng.choice([1, 1, 2, 4]))
             y.append(max(0.0, y[-1] - rng.choice([0, 0, 1, 2, 3])) if rng.random() < 0.85 else y[-1] + rng.choice([0, 1]))
-        pts, vt = gen.near_ties(rng, np.array(list(zip(x, y)), float), 0.2)
+        pts = np.array(list(zip(x, y)), float)
+        if rng.random() < 0.15:
+            return gen.bytecount_of(pts), 'staircase@bytecount'        # heights as raw byte counts (k * 2^33): rectangle areas ~2^80
+        pts, vt = gen.near_ties(rng, pts, 0.2)
         return pts, 'staircase' + vt
     pts, fam = gen.dyadic_curve(rng, n)
     if '@' not in fam:
@@ -179,4 +188,4 @@ def run(ctx):
 
 def replay(ctx, body):
     c = body['case']
-    one(ctx, np.array(c['points'], float), c['knees'], c['t'], 'replay')
+    one(ctx, np.array(c['points'], float), c['knees'], c['t'], 'replay', bool(c.get('int_dtype', False)))
